@@ -749,7 +749,21 @@ func (L *lruCtx) isBackOfList(v ssa.Value) bool {
 // eviction loop's condition in the "walk from the back" form.
 func (L *lruCtx) isEmptyListTest(i ssa.Instruction) bool {
 	b, ok := i.(*ssa.BinOp)
-	if !ok || (b.Op != token.EQL && b.Op != token.NEQ) {
+	if !ok {
+		return false
+	}
+	// list.Len() compared with 0 or 1 in either order (`Len() > 0 && counter > capacity` tests the list first)
+	for _, pair := range [][2]ssa.Value{{b.X, b.Y}, {b.Y, b.X}} {
+		if call, ok := peelConv(pair[0]).(*ssa.Call); ok && calleeName(&call.Call) == "(*container/list.List).Len" {
+			if k, isK := constInt(pair[1]); isK && (k == 0 || k == 1) {
+				switch b.Op {
+				case token.EQL, token.NEQ, token.LSS, token.LEQ, token.GTR, token.GEQ:
+					return true
+				}
+			}
+		}
+	}
+	if b.Op != token.EQL && b.Op != token.NEQ {
 		return false
 	}
 	return (isNilConst(b.Y) && L.isBackOfList(b.X)) || (isNilConst(b.X) && L.isBackOfList(b.Y))
